@@ -12,7 +12,7 @@ import re
 
 from ..engine import rule
 from ..model import Undecided
-from ..cfg import implied, dotted, call_name, is_call, simple_name, unparse, const_value, contains, enclosing, find_all
+from ..cfg import same, implied, dotted, call_name, is_call, simple_name, unparse, const_value, contains, enclosing, find_all
 from ..flow import Canon, Defs, depends, expand, Prov, scoped_defs
 from ..decide import table, ret_kind
 from ..pathflow import PathFlow, effect_args, safe, BUILDERS
@@ -161,7 +161,7 @@ def c09b(ctx):
     # level_part passes a str level through unchanged (allowed by C09.c) and formats numbers
     fn = ctx.fn(PATH + ':level_part')
     rets = returns_of(fn.node)
-    ok = bool(rets) and all(unparse(r.value) == 'level' or (isinstance(r.value, ast.BinOp) and isinstance(r.value.op, ast.Mod)) for r in rets)
+    ok = bool(rets) and all(same(r.value, 'level') or (isinstance(r.value, ast.BinOp) and isinstance(r.value.op, ast.Mod)) for r in rets)
     ctx.check(ok, 'level_part:form', 'level_part returns the level itself (str) or a numeric format of it', fn)
     # dimensions reach a builder only through dimensions_part
     for n in PATH_BUILDERS:
@@ -181,9 +181,9 @@ def _filecache_delegation(ctx):
         ok = bool(rets)
         for r in rets:
             c = r.value
-            ok = ok and is_call(c, callee) and len(c.args) >= nargs and unparse(c.args[1]) == 'self.cache_dir'
+            ok = ok and is_call(c, callee) and len(c.args) >= nargs and same(c.args[1], 'self.cache_dir')
             if ok and m == 'tile_location':
-                ok = unparse(c.args[2]) == 'self.file_ext' and unparse(c.args[0]) == 'tile'
+                ok = same(c.args[2], 'self.file_ext') and same(c.args[0], 'tile')
             if ok:
                 # dimensions only as the dimensions argument
                 for i, a in enumerate(c.args):
@@ -553,7 +553,7 @@ def c09f(ctx):
     fn = ctx.fn('mapproxy/service/demo.py:DemoServer.handle')
     g = fn.cfg
     sites = g.find(lambda x: is_call(x, 'static_filename', 'open'))
-    sites = [(n, x) for n, x in sites if is_call(x, 'static_filename') or (x.args and unparse(x.args[0]) == 'filename')]
+    sites = [(n, x) for n, x in sites if is_call(x, 'static_filename') or (x.args and same(x.args[0], 'filename'))]
     if not sites:
         raise Undecided('DemoServer.handle: static file sites not found')
     for n, x in sites:
@@ -563,8 +563,8 @@ def c09f(ctx):
                   fail="%s is reachable for a request path containing '..': files outside the static directory can be read" % simple_name(x))
     fn = ctx.fn('mapproxy/multiapp.py:DirectoryConfLoader.filename_from_app_name')
     rets = returns_of(fn.node)
-    ok = bool(rets) and all(is_call(r.value, 'os.path.join') and unparse(r.value.args[0]) == 'self.base_dir' and
-                            contains(r.value.args[1], lambda y: unparse(y) == 'self.suffix') for r in rets)
+    ok = bool(rets) and all(is_call(r.value, 'os.path.join') and same(r.value.args[0], 'self.base_dir') and
+                            contains(r.value.args[1], lambda y: same(y, 'self.suffix')) for r in rets)
     ctx.check(ok, 'DirectoryConfLoader.filename_from_app_name:form', 'config file = base_dir / (app name + configured suffix)', fn)
     h = ctx.fn('mapproxy/multiapp.py:MultiMapProxy.handle')
     defs = Defs(h.node)
